@@ -2,6 +2,11 @@ package c07
 
 import (
 	"fmt"
+	"os"
+	"path/filepath"
+	"regexp"
+	"strconv"
+	"strings"
 	"unicode"
 	"unicode/utf8"
 
@@ -39,41 +44,74 @@ func ignoreFaceChangeMirror(r rune) bool {
 		(unicode.Is(unicode.Zs, r) && r != 0x1680) || harfbuzz.IsDefaultIgnorable(r)
 }
 
-// libDelims mirrors shaping.pairedDelims (unexported) of the pinned tree. It is used only to
-// decide whether a text contains a delimiter the oracle does not pair itself and for the
-// structural matcher of findDelimTable; the oracle's own pairing is truePairs.
-var libDelims = map[rune]bool{}
-
-func init() {
-	for _, r := range []rune{
-		0x0028, 0x0029, 0x003c, 0x003e, 0x005b, 0x005d, 0x007b, 0x007d, 0x00ab, 0x00bb, 0x2018, 0x2019, 0x201a, 0x201b, 0x201c, 0x201d,
-		0x201e, 0x201f, 0x2039, 0x203a, 0x2045, 0x2046, 0x207d, 0x207e, 0x208d, 0x208e, 0x2308, 0x2309, 0x230a, 0x230b, 0x2329, 0x232a,
-		0x2768, 0x2769, 0x276a, 0x276b, 0x276c, 0x276d, 0x276e, 0x276f, 0x2770, 0x2771, 0x2772, 0x2773, 0x2774, 0x2775, 0x27c5, 0x27c6,
-		0x27e6, 0x27e7, 0x27e8, 0x27e9, 0x27ea, 0x27eb, 0x27ec, 0x27ed, 0x27ee, 0x27ef, 0x2983, 0x2984, 0x2985, 0x2986, 0x2987, 0x2988,
-		0x2989, 0x298a, 0x298b, 0x298c, 0x298d, 0x298e, 0x298f, 0x2990, 0x2991, 0x2992, 0x2993, 0x2994, 0x2995, 0x2996, 0x2997, 0x2998,
-		0x29d8, 0x29d9, 0x29da, 0x29db, 0x29fc, 0x29fd, 0x2e02, 0x2e03, 0x2e04, 0x2e05, 0x2e09, 0x2e0a, 0x2e0c, 0x2e0d, 0x2e1c, 0x2e1d,
-		0x2e20, 0x2e21, 0x2e22, 0x2e23, 0x2e24, 0x2e25, 0x2e26, 0x2e27, 0x2e28, 0x2e29, 0x2e42, 0x2e55, 0x2e56, 0x2e57, 0x2e58, 0x2e59,
-		0x2e5a, 0x2e5b, 0x2e5c, 0x3008, 0x3009, 0x300a, 0x300b, 0x300c, 0x300d, 0x300e, 0x300f, 0x3010, 0x3011, 0x3014, 0x3015, 0x3016,
-		0x3017, 0x3018, 0x3019, 0x301a, 0x301b, 0x301d, 0x301e, 0x301f, 0xfd3e, 0xfd3f, 0xfe17, 0xfe18, 0xfe35, 0xfe36, 0xfe37, 0xfe38,
-		0xfe39, 0xfe3a, 0xfe3b, 0xfe3c, 0xfe3d, 0xfe3e, 0xfe3f, 0xfe40, 0xfe41, 0xfe42, 0xfe43, 0xfe44, 0xfe47, 0xfe48, 0xfe59, 0xfe5a,
-		0xfe5b, 0xfe5c, 0xfe5d, 0xfe5e, 0xff08, 0xff09, 0xff3b, 0xff3d, 0xff5b, 0xff5d, 0xff5f, 0xff60, 0xff62, 0xff63,
-	} {
-		libDelims[r] = true
-	}
-}
-
-// inMisalignedBlock is the structural matcher of findDelimTable: in the pinned table the entries
-// U+2E42 … U+301F sit at the wrong index parity (U+2E42 has no partner in the table), so every
-// opener among them is treated as a closer and vice versa.
-func inMisalignedBlock(r rune) bool { return r >= 0x2E42 && r <= 0x301F && libDelims[r] }
-
+// The library documents which characters are paired delimiters by its table
+// shaping/paired_delims_table.go (pairedDelims, unexported: even index = opener, next index = its
+// closer). The check reads that table from the source file of the tree under test ($VERIF_REPO,
+// default /repo) — no hook is needed — so that the bracket clause (the MECHANISM: a closer follows
+// the script of its opener) covers every pair of the table, whatever the general category of its
+// members (Ps/Pe, Pi/Pf quotes, Sm like < >). tablePairs is that list; trueOpen/trueClose are the
+// lookup maps the oracle uses. truePairs (gen_test.go) stays as the by-construction anchor the
+// table itself is checked against (TestEnumPairs).
 var (
-	trueOpen  = map[rune]rune{}
-	trueClose = map[rune]rune{}
+	tablePairs  [][2]rune
+	tableSorted bool
+	tableSource string // "" when the table could not be read (the oracle then falls back to truePairs)
+	libDelims   = map[rune]bool{}
+	trueOpen    = map[rune]rune{}
+	trueClose   = map[rune]rune{}
 )
 
+func readDelimTable() (vals []rune, path string) {
+	root := os.Getenv("VERIF_REPO")
+	if root == "" {
+		root = "/repo"
+	}
+	path = filepath.Join(root, "shaping", "paired_delims_table.go")
+	b, err := os.ReadFile(path)
+	if err != nil {
+		return nil, ""
+	}
+	src := string(b)
+	i := strings.Index(src, "pairedDelims")
+	if i < 0 {
+		return nil, ""
+	}
+	src = src[i:]
+	o, c := strings.Index(src, "{"), strings.Index(src, "}")
+	if o < 0 || c < o {
+		return nil, ""
+	}
+	for _, m := range regexp.MustCompile(`0[xX][0-9a-fA-F]+`).FindAllString(src[o:c], -1) {
+		x, err := strconv.ParseInt(m[2:], 16, 32)
+		if err != nil {
+			return nil, ""
+		}
+		vals = append(vals, rune(x))
+	}
+	return vals, path
+}
+
 func init() {
-	for _, p := range truePairs {
+	vals, path := readDelimTable()
+	if len(vals) >= 2 {
+		tableSource = path
+		tableSorted = true
+		for i, r := range vals {
+			libDelims[r] = true
+			if i > 0 && vals[i-1] >= r {
+				tableSorted = false
+			}
+		}
+		for i := 0; i+1 < len(vals); i += 2 {
+			tablePairs = append(tablePairs, [2]rune{vals[i], vals[i+1]})
+		}
+	} else {
+		tablePairs = append(tablePairs, truePairs...)
+		for _, p := range truePairs {
+			libDelims[p[0]], libDelims[p[1]] = true, true
+		}
+	}
+	for _, p := range tablePairs {
 		trueOpen[p[0]] = p[1]
 		trueClose[p[1]] = p[0]
 	}
@@ -173,8 +211,8 @@ type bracketPair struct{ open, close int }
 type bracketInfo struct {
 	pairs      []bracketPair
 	wellNested bool // every closer matches the innermost open one (unclosed openers at the end allowed)
-	unknown    bool // contains a delimiter the oracle does not pair
-	misaligned bool // contains a delimiter of the misaligned block of the library table
+	unknown    bool // contains a delimiter the oracle cannot pair (only when the library table is unreadable)
+	misaligned bool // retired (finding C07-paired-delims-misaligned is fixed; the table is now checked by TestEnumPairs)
 	any        bool
 }
 
@@ -183,9 +221,6 @@ func analyseBrackets(text []rune, start, end int) bracketInfo {
 	var stack []int
 	for i := start; i < end; i++ {
 		r := text[i]
-		if inMisalignedBlock(r) {
-			bi.misaligned = true
-		}
 		if _, ok := trueOpen[r]; ok {
 			bi.any = true
 			stack = append(stack, i)
@@ -201,7 +236,9 @@ func analyseBrackets(text []rune, start, end int) bracketInfo {
 			}
 			continue
 		}
-		if isAnyDelimiter(r) && !language.LookupScript(r).Strong() {
+		// a Ps/Pe/Pi/Pf character outside the library's table is an ordinary neutral for the
+		// library; only without the table (fallback list) can the oracle not tell
+		if tableSource == "" && isAnyDelimiter(r) && !language.LookupScript(r).Strong() {
 			bi.unknown = true
 		}
 	}
